@@ -71,6 +71,8 @@ def gen(ctx):
     for solver in ("vi", "pi", "savi"):
         cs += runs.generate(ctx, solver, n, accept=conv, ks=[40], gammas=[F(1, 2), F(1, 4), F(3, 4)], eps=None)
         cs += runs.generate(ctx, solver, max(2, n // 4))
+    for solver in ("vi", "pi", "savi"):
+        cs += runs.directed(ctx, solver, quick)
     # PI with tiny evaluation budgets: where the forced hypothesis bites
     cs += runs.generate(ctx, "pi", 6 if quick else 250, accept=conv, ks=[40], max_eval=1, gammas=[F(1, 2), F(3, 4)])
     return cs
